@@ -23,6 +23,7 @@ def plan(tier, ctx):
     j += fvm.config('C15', 'spsc_2', 'spsc.c', 2, 6, 'sc', defines=['NPUSH=2'], spec=S, bounds='1 producer x 2 pushes, 1 consumer')
     j += fvm.config('C15', 'spsc_2', 'spsc.c', 2, 6, 'tso', defines=['NPUSH=2'], spec=S, bounds='1 producer x 2 pushes, 1 consumer, x86-TSO')
     j += fvm.config('C15', 'mpscr_2x1', 'mpscr.c', 3, 6, 'sc', defines=['NPUSH=1'], spec=S, bounds='2 producers x 1 push, 1 consumer', timeout=900)
+    j += fvm.config('C15', 'mpscr_3x1_ctr', 'mpscr.c', 4, 7, 'sc', defines=['NPUSH=1', 'NPROD=3', 'COUNTER_NEAR_2_32'], spec=S, bounds='3 producers x 1 push, read counter starts at a symbolic value around 2^32', timeout=1800, required=False)
     if tier == 'thorough':
         j += fvm.config('C15', 'mpsc_2x2', 'mpsc.c', 3, 8, 'sc', defines=['NPUSH=2'], spec=S, bounds='2 producers x 2 pushes, 1 consumer', timeout=900)
         j += fvm.config('C15', 'mpsc_2x1', 'mpsc.c', 3, 6, 'tso', defines=['NPUSH=1'], spec=S, bounds='2 producers x 1 push, x86-TSO', timeout=1200, mem_gb=16)
